@@ -39,6 +39,10 @@ def generate(rng, tier):
             g = _gaps(segs)
             c = rng.choice([0, 1, 2, 3]) if not g or rng.random() < 0.3 else max(0, rng.choice(g) + rng.choice([-1, 0, 1]))
             cases.append({"regime": regime, "segs": segs, "collar": c})
+    # large timelines (sizes crossing 256 / 512 / 1000 members, runs of equal starts)
+    for regime in ("K0", "K4"):
+        for nbig in ([300, 640, 1100] if tier == "thorough" else [300 + 40 * len(regime)]):
+            cases.append({"regime": regime, "segs": gen.big_timeline(rng, regime, nbig), "collar": rng.choice([0, 1, 2, 6])})
     cases += gen.far_copies(rng, cases, ['segs'], (400 if tier == "thorough" else 60))
     return {"cases": cases, "meta": {"exhaustive": True, "small_scope_max_segments": k,
                                      "sizes": gen.stats(cases, {"n_segments": lambda c: len(c["segs"]),
